@@ -12,7 +12,7 @@ import (
 func init() {
 	register(&Rule{
 		ID: "ERR-FLOW", Props: []string{"C14", "C15", "C16"}, Default: []string{"C14"}, Floor: 8,
-		Doc: "every error of Operations.Update/Delete and every BatchEntry.Result reaches retries.Add or opResult.err; commitStatus queues a retry for every failed result whose status it wrote; a popped retry is processed; a change or a success clears the retry state; inside a round a consumed change is always processed unless the status filter skips it",
+		Doc: "every error of Operations.Update/Delete and every BatchEntry.Result reaches retries.Add or opResult.err; commitStatus queues a retry for every failed result whose status it wrote; a popped retry is processed; a change or a success clears the retry state; inside a round a consumed change is always processed unless the status filter skips it; a round the changes filled still serves a due retry; the same-request shortcut of commitStatus needs a non-zero identifier",
 		Run: ruleErrFlow,
 	})
 	register(&Rule{
@@ -22,7 +22,7 @@ func init() {
 	})
 	register(&Rule{
 		ID: "RETRY-BOOK", Props: []string{"C14", "C15", "C16"}, Default: []string{"C14", "C16"}, Floor: 8,
-		Doc: "retries.Add refreshes what changes from failure to failure (object, retry time, attempt count), records the revision of the failing change once per item (origRev, the low watermark) and keeps both heaps complete (time heap re-positioned); Clear forgets the item entirely (backoff starts over); LowWatermark reports 0 only when no failed item remains; the backoff is capped; progress is published from the revisions incremental.run actually processed, the low watermark on every update",
+		Doc: "retries.Add refreshes what changes from failure to failure (object, retry time, attempt count), records the revision of the failing change once per item (origRev, the low watermark) and keeps both heaps complete (time heap re-positioned); Clear forgets the item entirely (backoff starts over); LowWatermark reports 0 only when no failed item remains; the backoff is capped; progress is published from the revisions incremental.run actually processed, the low watermark on every update; a round cut short by IncrementalRoundSize is marked and does not publish the revision it stopped at; validate() rejects a maximum backoff below the minimum; the origin revision of a failed update is the revision of the change (known finding F-AU: it is the observed version's)",
 		Run: ruleRetryBook,
 	})
 	register(&Rule{
